@@ -1,5 +1,5 @@
 from vpdrv import Job
-OPS = ['append', 'reserve_commit', 'fetch', 'consume', 'consume_all', 'shrink', 'copy', 'copy_assign', 'self_assign', 'move', 'move_assign', 'swap', 'reset']
+OPS = ['append', 'reserve_commit', 'fetch', 'consume', 'consume_all', 'shrink', 'copy', 'copy_assign', 'self_assign', 'move', 'move_assign', 'swap', 'reset', 'commit_any']
 JOBS = []
 for cap in range(0, 9):
     for op in OPS:
